@@ -16,20 +16,32 @@ BUDGET = {"quick": 60, "thorough": 2500}
 
 def transient_across_transactions(chk: Check):
     """Transient storage written by setUp() must be gone in the test transaction (EIP-1153)."""
-    setup = [("PUSH", 7), ("PUSH", 1), "TSTORE", ("PUSH", 9), ("PUSH", 1), "SSTORE", "STOP"]
+    from harness.asm import assemble
+
+    # a second account, created by setUp(): it answers with its OWN transient slot 1 plus its own storage slot 1
+    brt = assemble([("PUSH", 1), "TLOAD", ("PUSH", 1), "SLOAD", "ADD", ("PUSH", 0), "MSTORE", ("PUSH", 32), ("PUSH", 0), "RETURN"])
+    binit = assemble([("PUSHN", 2, len(brt)), ("PUSHL", "rt"), ("PUSH", 0), "CODECOPY", ("PUSHN", 2, len(brt)), ("PUSH", 0), "RETURN", ("MARK", "rt"), ("RAW", brt)])
+    setup = [("PUSH", 7), ("PUSH", 1), "TSTORE", ("PUSH", 9), ("PUSH", 1), "SSTORE",
+             ("PUSHN", 2, len(binit)), ("PUSHL", "binit"), ("PUSH", 0x100), "CODECOPY", ("PUSHN", 2, len(binit)), ("PUSH", 0x100), ("PUSH", 0), "CREATE", ("PUSH", 7), "SSTORE", "STOP"]
+    # check_other: TSTORE(1, 42) here, then ask the other account: its slots are untouched (0), otherwise Panic(1)
+    other = [("PUSH", 42), ("PUSH", 1), "TSTORE", ("PUSH", 32), ("PUSH", 0x40), ("PUSH", 0), ("PUSH", 0), ("PUSH", 0), ("PUSH", 7), "SLOAD", ("PUSH", 0xFFFFFF), "CALL", "POP",
+             ("PUSH", 0x40), "MLOAD", ("PUSHL", "bad3"), "JUMPI", "STOP", ("LABEL", "bad3")] + panic(1)
     # check_fresh: TLOAD(1) must be 0 and SLOAD(1) must be 9, otherwise Panic(1)
     fresh = [("PUSH", 1), "TLOAD", ("PUSHL", "bad"), "JUMPI", ("PUSH", 9), ("PUSH", 1), "SLOAD", "EQ", "ISZERO", ("PUSHL", "bad"), "JUMPI", "STOP", ("LABEL", "bad")] + panic(1)
     # check_leak: Panic(1) iff TLOAD(1) == 0, i.e. it must FAIL
     leak = [("PUSH", 1), "TLOAD", "ISZERO", ("PUSHL", "bad2"), "JUMPI", "STOP", ("LABEL", "bad2")] + panic(1)
-    c = Contract("TransientT", [Fn("setUp()", setup), Fn("check_fresh()", fresh), Fn("check_leak()", leak)])
+    c = Contract("TransientT", [Fn("setUp()", setup), Fn("check_fresh()", fresh), Fn("check_leak()", leak), Fn("check_other()", other)],
+                 data=[("MARK", "binit"), ("RAW", binit)])
     work = workdir("c08t")
     try:
         cases = [reftest.test_case(0, c, "check_fresh()", reftest.encode_static("check_fresh()", ())),
-                 reftest.test_case(1, c, "check_leak()", reftest.encode_static("check_leak()", ()))]
+                 reftest.test_case(1, c, "check_leak()", reftest.encode_static("check_leak()", ())),
+                 reftest.test_case(2, c, "check_other()", reftest.encode_static("check_other()", ()))]
         recs, tr = e1.run_spec(cases, work)
         chk.add_tlc(tr)
-        want = {"check_fresh()": reftest.is_failure(recs[0], {1}), "check_leak()": reftest.is_failure(recs[1], {1})}
-        if want != {"check_fresh()": False, "check_leak()": True}:
+        want = {"check_fresh()": reftest.is_failure(recs[0], {1}), "check_leak()": reftest.is_failure(recs[1], {1}),
+                "check_other()": reftest.is_failure(recs[2], {1})}
+        if want != {"check_fresh()": False, "check_leak()": True, "check_other()": False}:
             raise MachineryError(f"reference machine: unexpected transient-storage outcome {want}")
         for layout in ("solidity", "generic"):
             out = run_contract(c, cli=("--storage-layout", layout))
@@ -43,7 +55,7 @@ def transient_across_transactions(chk: Check):
                 if fails and r.exitcode == 0:
                     chk.violation(f"transient-2tx:{sig}:{layout}:pass", f"{sig} ({layout}): transient storage written by setUp() must be empty in the test transaction; halmos reports PASS for a test that fails on the reference machine", {"stdout": out.stdout[-800:]})
                 if not fails and r.exitcode == 1:
-                    chk.violation(f"transient-2tx:{sig}:{layout}:fail", f"{sig} ({layout}): halmos reports a counterexample for a test that cannot fail: transient storage leaked from setUp() into the test transaction", {"stdout": out.stdout[-800:]})
+                    chk.violation(f"transient-2tx:{sig}:{layout}:fail", f"{sig} ({layout}): halmos reports a counterexample for a test that cannot fail: transient storage leaked from setUp() into the test transaction, or from one account into another", {"stdout": out.stdout[-800:]})
     finally:
         cleanup(work)
 
